@@ -486,7 +486,7 @@ func init() {
 			if tier == "thorough" {
 				js = append(js, withPolicies(tier, []reg.Job{pm("instr-w2", "RrSCc", 5, 3, 420), pm("instr-w3", "RSC", 5, 3, 420), pm("instr", "RSC", 4, 3, 420)}, func(reg.Job) bool { return true })...)
 			} else {
-				js = append(js, withPolicies(tier, []reg.Job{pm("instr-w2", "RSC", 4, 3, 100)}, func(reg.Job) bool { return true })...)
+				js = append(js, withPolicies(tier, []reg.Job{pm("instr-w2", "RSC", 3, 3, 100), pm("instr-w2", "RSC", 4, 2, 100)}, func(reg.Job) bool { return true })...)
 			}
 			if c02ExtraJobs != nil {
 				js = append(js, c02ExtraJobs(tier)...)
